@@ -285,3 +285,11 @@ package queue
 //@   modifies *
 //@   assert-call (*TimeWheel).Add : fsSt[metaP(q, id)] != 0 && fsSt[hdrP(q, id)] != 0 && fsSt[bodyP(q, id)] != 0 && isType($value, "queueSlot") && as($value, "queueSlot").ID == id
 //@   loop 0 invariant q != nil && q.wheel == old(q.wheel) && q.location == old(q.location)
+
+// C10: the queue keeps the very metadata object of the transaction it was started for (not a snapshot taken at MAIL
+// time): what later stages add to it before Body - the TLS-Required override read from the header at DATA, the
+// original-recipient mapping recorded by the pipeline at each RCPT - is what gets spooled and handed to the target.
+//@ func (*Queue).Start
+//@   prop C10
+//@   requires q != nil && msgMeta != nil
+//@   ensures result1 == nil ==> isType(result0, "*queueDelivery") && as(result0, "*queueDelivery") != nil && as(result0, "*queueDelivery").meta != nil && as(result0, "*queueDelivery").meta.MsgMeta == msgMeta && as(result0, "*queueDelivery").meta.From == mailFrom
